@@ -10,6 +10,8 @@ import (
 	"github.com/twpayne/go-geom/encoding/wkt"
 )
 
+var c18Encoders = map[int]*wkt.Encoder{}
+
 func init() { generators["C18"] = genC18 }
 
 // finite ordinates that stress decimal rounding
@@ -175,13 +177,32 @@ func genC18(r *Rng, e *Emitter, n int) {
 			t := r.decTree(2, l, true)
 			g := t.build()
 			e.tally("format=wkt")
-			e.emit("C18.wkt", fmt.Sprintf("(%d %s)", d, t.sx()), guard(func() string {
-				s, err := wkt.Marshal(g, wkt.EncodeOptionWithMaxDecimalDigits(d))
+			// half of the texts come from one long-lived Encoder per digit count; every text is kept and
+			// read again after later calls (a text once returned does not change)
+			persist := r.chance(1, 2)
+			var kept string
+			ok := false
+			in := fmt.Sprintf("(%d %s)", d, t.sx())
+			e.emit("C18.wkt", in, guard(func() string {
+				var s string
+				var err error
+				if persist {
+					if c18Encoders[d] == nil {
+						c18Encoders[d] = wkt.NewEncoder(wkt.EncodeOptionWithMaxDecimalDigits(d))
+					}
+					s, err = c18Encoders[d].Encode(g)
+				} else {
+					s, err = wkt.Marshal(g, wkt.EncodeOptionWithMaxDecimalDigits(d))
+				}
 				if err != nil {
 					return sxErr(err)
 				}
+				kept, ok = s, true
 				return "(ok " + hex.EncodeToString([]byte(s)) + ")"
 			}))
+			if ok {
+				e.watch("C18.wkt", in, func() string { return "(ok " + hex.EncodeToString([]byte(kept)) + ")" })
+			}
 			continue
 		}
 		l := []geom.Layout{geom.XY, geom.XYZ, geom.XYZM}[r.Intn(3)]
